@@ -35,6 +35,8 @@ def run(ctx):
     ctx.ob("I-INDEX", "no other image construction reachable from the enum parser", not others, "%s" % others)
     eadv = progress.rule_L_PROGRESS(ctx, reach, 10)
     progress.rule_L_RECURSION_enum(ctx, reach, eadv)
+    import maps
+    maps.rule_U_CHARS(ctx, modules=("impl_enum::parser",))
     T = tables.Tables(ctx)
     tables.rule_T_NONEMPTY(ctx, T)
     ctx.undecided = ["bounds obligations backed by a reviewed invariant rather than a machine proof (see `why` of each table entry)",
